@@ -168,6 +168,8 @@ fn value(p: &mut Parser<'_>, skip: Skip) -> Result<Option<Checkpoint<PointerU32>
             let c = p.checkpoint()?;
             p.bump()?;
 
+            let skip = p.count_skip();
+
             let skip = match operation(p, skip)? {
                 Some(skip) => skip,
                 None => return Ok(None),
